@@ -42,6 +42,16 @@ class Tok:
         return f"Tok({self.type})"
 
 
+class LocalFunction:
+    def __init__(self, node: ast.FunctionDef, closure: Dict[str, Any]):
+        self.node = node
+        self.closure = closure
+
+
+class _Raised(Exception):
+    pass
+
+
 class Run:
     def __init__(self, cfg: CFG, env: Dict[str, Any], script: List[Tok], is_fetch: Callable[[ast.Call], bool], extern: Optional[Callable[[ast.Call, "Run"], Any]] = None, max_steps: int = 2000):
         self.cfg = cfg
@@ -54,6 +64,8 @@ class Run:
         self.returned: Any = None
         self.raised: Optional[str] = None
         self.trace: List[int] = []
+        self.depth = 0
+        self.iters: Dict[int, Any] = {}
 
     # ---- expressions
     def ev(self, e: ast.AST) -> Any:
@@ -119,8 +131,14 @@ class Run:
             if isinstance(e.op, ast.Sub):
                 return l - r
             raise Unsupported(norm(e))
-        if isinstance(e, (ast.Tuple, ast.List, ast.Set)):
+        if isinstance(e, ast.List):
+            return [self.ev(x) for x in e.elts]
+        if isinstance(e, (ast.Tuple, ast.Set)):
             return tuple(self.ev(x) for x in e.elts)
+        if isinstance(e, ast.Dict):
+            return {self.ev(k): self.ev(v) for k, v in zip(e.keys, e.values)}
+        if isinstance(e, ast.JoinedStr):
+            return "<text>"
         if isinstance(e, ast.Call):
             if self.is_fetch(e):
                 if self.pos >= len(self.script):
@@ -130,6 +148,37 @@ class Run:
                 return t
             if isinstance(e.func, ast.Name) and e.func.id == "len" and len(e.args) == 1:
                 return len(self.ev(e.args[0]))
+            if isinstance(e.func, ast.Name) and e.func.id in ("bool", "list", "tuple") and len(e.args) == 1:
+                v = self.ev(e.args[0])
+                return bool(v) if e.func.id == "bool" else (list(v) if e.func.id == "list" else tuple(v))
+            if isinstance(e.func, ast.Attribute) and e.func.attr in ("values", "keys", "items") and not e.args:
+                base = self.ev(e.func.value)
+                if isinstance(base, dict):
+                    return list(getattr(base, e.func.attr)())
+            if isinstance(e.func, ast.Attribute) and e.func.attr in ("append", "extend") and len(e.args) == 1:
+                base = self.ev(e.func.value)
+                if isinstance(base, list):
+                    v = self.ev(e.args[0])
+                    base.append(v) if e.func.attr == "append" else base.extend(v)
+                    return None
+            if isinstance(e.func, ast.Name) and isinstance(self.env.get(e.func.id), LocalFunction):
+                lf: LocalFunction = self.env[e.func.id]
+                if self.depth > 4:
+                    raise Unsupported("call depth")
+                env2 = dict(lf.closure)
+                for a_, x in zip(lf.node.args.args, e.args):
+                    env2[a_.arg] = self.ev(x)
+                if len(lf.node.args.args) != len(e.args) or e.keywords:
+                    raise Unsupported("call shape of a local function")
+                sub = Run(CFG(lf.node), env2, self.script, self.is_fetch, self.extern, self.max_steps)
+                sub.pos = self.pos
+                sub.depth = self.depth + 1
+                sub.run()
+                self.pos = sub.pos
+                if sub.raised:
+                    self.raised = sub.raised
+                    raise _Raised()
+                return sub.returned
             if self.extern is not None:
                 return self.extern(e, self)
             raise Unsupported(f"call {norm(e)[:50]}")
@@ -151,8 +200,15 @@ class Run:
 
     # ---- statements over the CFG
     def run(self, start: Optional[Node] = None) -> "Run":
+        try:
+            return self._run(start)
+        except _Raised:
+            return self
+
+    def _run(self, start: Optional[Node] = None) -> "Run":
         n = start or self.cfg.entry
         steps = 0
+        prev: Optional[Node] = None
         while n is not self.cfg.exit:
             steps += 1
             if steps > self.max_steps:
@@ -163,8 +219,23 @@ class Run:
             if n.kind == "test":
                 if n.cond is not None:
                     label = "T" if self.ev(n.cond) else "F"
+                elif isinstance(st, ast.For):
+                    inside = getattr(self, "_inside", {}).get(n.id)
+                    if inside is None:
+                        inside = {id(x) for b in st.body for x in ast.walk(b)}
+                        self.__dict__.setdefault("_inside", {})[n.id] = inside
+                    came_from_body = prev is not None and prev.stmt is not None and id(prev.stmt) in inside
+                    if n.id not in self.iters or not came_from_body:
+                        self.iters[n.id] = iter(list(self.ev(st.iter)))
+                    try:
+                        item = next(self.iters[n.id])
+                        self.assign(st.target, item)
+                        label = "T"
+                    except StopIteration:
+                        self.iters.pop(n.id, None)
+                        label = "F"
                 else:
-                    raise Unsupported("for-loops are not interpreted")
+                    raise Unsupported("loop form not interpreted")
             elif n.kind == "stmt" and st is not None:
                 if isinstance(st, ast.Assign):
                     v = self.ev(st.value)
@@ -195,6 +266,8 @@ class Run:
                     return self
                 elif isinstance(st, (ast.Pass, ast.Break, ast.Continue)):
                     pass
+                elif isinstance(st, ast.FunctionDef):
+                    self.env[st.name] = LocalFunction(st, self.env)
                 elif isinstance(st, ast.Assert):
                     if not self.ev(st.test):
                         self.raised = "AssertionError"
@@ -202,8 +275,11 @@ class Run:
                 else:
                     raise Unsupported(f"statement {type(st).__name__}")
             succ = [(s, lab) for s, lab in n.succ if lab != "exc"]
-            if label is not None:
+            if label is not None and any(lab in ("T", "F") for _, lab in succ):
                 nxt = [s for s, lab in succ if lab == label]
+            elif label is not None and len(succ) == 2:
+                # a `for` head: first successor is the body, second the exit
+                nxt = [succ[0][0]] if label == "T" else [succ[1][0]]
             else:
                 nxt = [s for s, lab in succ]
             if len(nxt) != 1:
@@ -211,5 +287,6 @@ class Run:
                 if not nxt:
                     return self
                 raise Unsupported("ambiguous control flow")
+            prev = n
             n = nxt[0]
         return self
